@@ -654,6 +654,9 @@ class Interp:
             if k == 'deref':
                 cur = load(Ref(cell, path))
                 if isinstance(cur, Agg) and cur.ty in ('Box', 'Pin') and cur.fields and isinstance(cur.fields[0], Ref): cur = cur.fields[0]
+                if isinstance(cur, Str):
+                    # `&str` constants are modelled by the text itself: `*s` is that text (kept in place; strings are immutable here)
+                    continue
                 if not isinstance(cur, Ref): raise Unsupported(f'deref of non-reference {cur!r} in {f.name}')
                 cell, path = cur.cell, list(cur.path)
             elif k == 'field':
